@@ -23,7 +23,7 @@ REQUIRED = {"C14": {"healthy-package": 200, "fault:duplicate": 30, "fault:defaul
                     "fault-raised-without-fms": 60, "fault-tolerated-with-fms": 60, "missing-package": 10, "disabled-class-skipped": 50,
                     "select:chooser-default": 50, "select:chooser-sim": 50, "select:auto-selector": 50, "select:auto-selector-unknown": 20,
                     "select:none": 30, "period-api": 200, "period-run": 60, "iteration-checked": 2000, "after-disable-silent": 100,
-                    "other-modes-silent-checked": 200, "chooser-options-checked": 200}}
+                    "other-modes-silent-checked": 200, "chooser-options-checked": 200, "disable-after-run-silent": 30}}
 ASSUMPTIONS = {"C14": ["a mode class re-exported by a second module is not generated (the statement does not say whether it is found twice)",
                        "with several DEFAULT modes and the FMS attached the preselected mode may be any of them",
                        "periodic() before the first start() and start() twice without disable() are not generated (unspecified)"]}
@@ -98,7 +98,7 @@ def gen_case(rng, uid):
             periods.append(ops)
         else:
             periods.append({"iterations": rng.choice([1, 2, 5, 15]), "period_us": rng.choice([20000, 5000, 50000]),
-                            "end": rng.choice(["disabled", "teleop", "exit"])})
+                            "end": rng.choice(["disabled", "teleop", "exit"]), "disable_after": rng.random() < 0.6})
     return {"uid": uid, "pkg": pkg, "missing": missing, "modules": modules, "fault": applied, "fms": fms, "select": sel,
             "sel_seed": rng.randrange(1 << 30), "style": style, "periods": periods}
 
@@ -457,6 +457,20 @@ def run_run_period(acc, case, selector, period, chosen, chosen_name, e):
         return "violation"
     if not check_period_log(acc, case, list(sel_rt.LOG), chosen, chosen_name, n_seen, f"run() period ending by {period['end']}"):
         return "violation"
+    if period.get("disable_after", True):
+        # the documented disabledInit() hook: disable() after the period has already ended delivers nothing
+        n0 = len(sel_rt.LOG)
+        try:
+            selector.disable()
+        except Exception as ex:  # noqa
+            acc.violation("C14/api-raised", f"disable() after run() raised {ex!r}", case, {})
+            return "violation"
+        acc.checks += 1
+        acc.ev("after-disable-silent")
+        acc.ev("disable-after-run-silent")
+        if len(sel_rt.LOG) != n0:
+            acc.violation("C14/callback-after-disable", f"disable() after a finished run() period delivered {sel_rt.LOG[n0:]}", case, {})
+            return "violation"
     if period["end"] == "exit":
         return "stop"
     return "ok"
